@@ -68,6 +68,11 @@ structure Cfg where
   pauseGate : Bool := false
   /-- C08 repair: `set_error_state` during a run applies the safe state like Pause (Unpause restores) -/
   errSafe : Bool := false
+  /-- C09 repair (double Pause): a Pause body that runs while already paused keeps the snapshot of the onset -/
+  pauseOnce : Bool := false
+  /-- C06 repair (error while idle): `set_error_state` with no run active only reports the error
+      (Method Status); System State stays Stopped and the paused flag is not set -/
+  idleErr : Bool := false
 deriving Repr
 
 /-- Events of the interpreter that the clock tags listen to. -/
@@ -105,8 +110,10 @@ structure WriteRec where
   /-- `_runstate_paused` when it was made -/
   paused : Bool
   vals : List Int
-  /-- (history) which outputs a user-sourced command wrote since the pause began -/
+  /-- (history) outputs for which a user request was accepted since the pause began -/
   touched : List Nat
+  /-- (history) outputs a user-sourced command wrote since the pause began -/
+  touchedRun : List Nat
 deriving Repr, DecidableEq
 
 structure Core where
@@ -137,8 +144,12 @@ structure Core where
   hw : List Int := []
   /-- every `write_batch` so far -/
   writes : List WriteRec := []
-  /-- (history) outputs written by a user-sourced command since the current pause began -/
+  /-- (history) outputs the user explicitly commanded since the current pause began: a user request for that
+      output was *accepted* while paused (or the harness' `set` op, which stands for such a command) -/
   touched : List Nat := []
+  /-- (history) outputs written by a user-sourced command since the current pause began, whenever it was
+      requested -/
+  touchedRun : List Nat := []
   -- history variables
   /-- what the most recent Pause captured -/
   lastCap : Option (List (Option Int)) := none
@@ -146,6 +157,9 @@ structure Core where
   capRun : Option Nat := none
   /-- no Unpause since the most recent Pause -/
   capLive : Bool := false
+  /-- (history) what was captured when the current / most recent pause *began* (`paused` went from false to
+      true); not overwritten by a Pause body that runs while already paused -/
+  onsetCap : Option (List (Option Int)) := none
 deriving Repr
 
 namespace Core
@@ -153,14 +167,18 @@ namespace Core
 /-- `set_error_state`; with the C08 repair an error that pauses a running, not yet paused run applies the safe
     state exactly like Pause does -/
 def setError (cfg : Cfg) (c : Core) : Core :=
-  if cfg.errSafe && c.started && !c.paused then
+  if cfg.idleErr && !c.started then { c with methodErr := true, lastErr := true }
+  else if cfg.errSafe && c.started && !c.paused then
     { c with methodErr := true, sys := .paused, lastErr := true, paused := true,
              prev := some (capture cfg.safes c.outs), outs := applySafe cfg.safes c.outs,
-             touched := [],
-             lastCap := some (capture cfg.safes c.outs), capRun := c.runId, capLive := true }
+             touched := [], touchedRun := [],
+             lastCap := some (capture cfg.safes c.outs), capRun := c.runId, capLive := true,
+             onsetCap := some (capture cfg.safes c.outs) }
   else
     { c with methodErr := true, sys := .paused, lastErr := true, paused := true,
-             touched := if c.paused then c.touched else [] }
+             touched := if c.paused then c.touched else [],
+             touchedRun := if c.paused then c.touchedRun else [],
+             onsetCap := if c.paused then c.onsetCap else none }
 
 def clearPrev (cfg : Cfg) (c : Core) : Option (List (Option Int)) :=
   if cfg.prevFix then none else c.prev
@@ -173,10 +191,15 @@ def startRun (cfg : Cfg) (c : Core) : Core :=
            blocks := [], prev := c.clearPrev cfg }
 
 def pause (cfg : Cfg) (c : Core) : Core :=
+  if cfg.pauseOnce && c.paused then { c with sys := .paused, clkPaused := true }
+  else
   { c with paused := true, sys := .paused,
            prev := some (capture cfg.safes c.outs), outs := applySafe cfg.safes c.outs,
-           clkPaused := true, touched := [],
-           lastCap := some (capture cfg.safes c.outs), capRun := c.runId, capLive := true }
+           clkPaused := true,
+           touched := if c.paused then c.touched else [],
+           touchedRun := if c.paused then c.touchedRun else [],
+           lastCap := some (capture cfg.safes c.outs), capRun := c.runId, capLive := true,
+           onsetCap := if c.paused then c.onsetCap else some (capture cfg.safes c.outs) }
 
 /-- `UnpauseEngineCommand._run` -/
 def unpause (c : Core) : Core :=
@@ -196,7 +219,7 @@ def stopBegin (c : Core) : Core := { c with stopping := true }
 
 def writeImage (c : Core) : Core :=
   if c.started then
-    { c with hw := c.outs, writes := c.writes ++ [⟨true, c.paused, c.outs, c.touched⟩] }
+    { c with hw := c.outs, writes := c.writes ++ [⟨true, c.paused, c.outs, c.touched, c.touchedRun⟩] }
   else c
 
 /-- second phase of Stop -/
@@ -248,11 +271,15 @@ def touch (i : Nat) (l : List Nat) : List Nat := i :: l
 
 /-- the harness' `set` operation: the effect of a user-sourced command on an output tag -/
 def setOut (i : Nat) (v : Int) (c : Core) : Core :=
-  { c with outs := c.outs.set i v, touched := touch i c.touched }
+  { c with outs := c.outs.set i v, touched := touch i c.touched, touchedRun := touch i c.touchedRun }
 
 /-- one iteration of a UOD command writing `v` to output `i` -/
 def uwrite (i : Nat) (v : Int) (user : Bool) (c : Core) : Core :=
-  { c with outs := c.outs.set i v, touched := if user then touch i c.touched else c.touched }
+  { c with outs := c.outs.set i v, touchedRun := if user then touch i c.touchedRun else c.touchedRun }
+
+/-- (history only) a user request for output `i` is accepted -/
+def userRequest (i : Nat) (c : Core) : Core :=
+  if c.paused then { c with touched := touch i c.touched } else c
 
 /-- `Block Time`.get_value() -/
 def blockObs (c : Core) : Int := c.blocks.getLast?.getD 0
@@ -355,7 +382,7 @@ deriving Repr
 def init (cfg : Cfg) (outs : List Int) : State :=
   let so := applySafe cfg.safes outs
   if cfg.startWrite then
-    { core := { outs := so, hw := so, writes := [⟨false, false, so, []⟩] } }
+    { core := { outs := so, hw := so, writes := [⟨false, false, so, [], []⟩] } }
   else
     { core := { outs := so, hw := outs.map (fun _ => 0) } }
 
@@ -654,5 +681,8 @@ def repaired (safes : List (Option Int)) : Cfg := { safes, guard := true, clocks
 /-- … and with the three C08 repairs as well -/
 def repaired8 (safes : List (Option Int)) : Cfg :=
   { safes, guard := true, clocks := true, prevFix := true, startWrite := true, pauseGate := true, errSafe := true }
+/-- … and with the double-Pause and error-while-idle repairs -/
+def repaired10 (safes : List (Option Int)) : Cfg :=
+  { repaired8 safes with pauseOnce := true, idleErr := true }
 
 end OPM.RunState
